@@ -11,18 +11,18 @@ pub fn rebuild<F>(
 where
     F: Fn(&TaskMap) -> bool,
     requires
-        old(txn).inv(), !old(txn).st().committed, pure_pred(in_working_set),
+        old(txn).inv(), pure_pred(in_working_set),
         // storage invariant assumed of the stored working set: index 0 blank, no task listed twice, no trailing blanks
         ws_wf2(old(txn).st().ws), ws_trim(old(txn).st().ws) == old(txn).st().ws,
         old(txn).st().ws.len() + old(txn).st().tasks.dom().len() < usize::MAX,
     ensures
         final(txn).inv(),
         // only the working set (and the commit flag) change
-        final(txn).st() == (TxnView { ws: final(txn).st().ws, committed: final(txn).st().committed, ..old(txn).st() }),
+        final(txn).st() == (TxnView { ws: final(txn).st().ws, ..old(txn).st() }),
         //@ob C15 rebuild.stored-working-set-afterwards: index 0 empty; a task is listed iff it exists and satisfies the predicate, exactly once; without renumbering survivors keep their number; with renumbering no gaps; committed
-        r is Ok ==> final(txn).st().committed && rebuild_post(in_working_set, renumber, old(txn).st().ws, old(txn).st().tasks, final(txn).st().ws),
-        //@ob C15 C04 rebuild.an-error-leaves-the-transaction-uncommitted
-        r is Err ==> !final(txn).st().committed,
+        r is Ok ==> final(txn).stored() == final(txn).st() && rebuild_post(in_working_set, renumber, old(txn).st().ws, old(txn).st().tasks, final(txn).st().ws),
+        //@ob C15 C04 rebuild.an-error-leaves-the-stored-working-set-untouched
+        r is Err ==> final(txn).stored() == old(txn).stored(),
 {
     let ghost s0 = txn.st();
     let old_ws = txn.get_working_set()?;
@@ -35,7 +35,7 @@ where
         invariant
             txn.inv(), s0 == old(txn).st(), txn.st() == (TxnView { ws: txn.st().ws, ..s0 }),
             w == old_ws@, w == old(txn).st().ws, ws_wf2(w), ws_trim(w) == w, pure_pred(in_working_set),
-            txn.st().tasks == t, t == old(txn).st().tasks, txn.st().ws == w, !txn.st().committed,
+            txn.st().tasks == t, t == old(txn).st().tasks, txn.st().ws == w, txn.stored() == old(txn).stored(),
             it_elt.seq().len() == w.len() - 1, forall|i: int| 0 <= i < it_elt.seq().len() ==> *(#[trigger] it_elt.seq()[i]) == w[i + 1],
             new_ws@.len() >= 1, new_ws@[0] is None,
             forall|i: int, j: int| 0 <= i < j < new_ws@.len() && new_ws@[i] is Some ==> new_ws@[i] != new_ws@[j],
@@ -145,7 +145,7 @@ where
     for (uuid, task) in it_uuid: txn.all_tasks()?
         invariant
             txn.inv(), s0 == old(txn).st(), txn.st() == (TxnView { ws: txn.st().ws, ..s0 }),
-            pure_pred(in_working_set), t == old(txn).st().tasks, txn.st().tasks == t, txn.st().ws == w, !txn.st().committed, w == old_ws@, w == old(txn).st().ws, ws_wf2(w), ws_trim(w) == w,
+            pure_pred(in_working_set), t == old(txn).st().tasks, txn.st().tasks == t, txn.st().ws == w, txn.stored() == old(txn).stored(), w == old_ws@, w == old(txn).st().ws, ws_wf2(w), ws_trim(w) == w,
             // what all_tasks returned
             forall|i: int| 0 <= i < it_uuid.seq().len() ==> t.dom().contains(#[trigger] it_uuid.seq()[i].0) && it_uuid.seq()[i].1@ == t[it_uuid.seq()[i].0],
             forall|i: int, j: int| 0 <= i < j < it_uuid.seq().len() ==> it_uuid.seq()[i].0 != it_uuid.seq()[j].0,
@@ -246,7 +246,7 @@ where
         for (old_, new) in it_old: old_ws.iter().zip(new_ws.iter())
             invariant
                 txn.inv(), s0 == old(txn).st(), txn.st() == (TxnView { ws: txn.st().ws, ..s0 }),
-                w == old_ws@, nn == new_ws@, w.len() >= 1, nn.len() >= 1, t == old(txn).st().tasks, txn.st().tasks == t, !txn.st().committed, w == old(txn).st().ws,
+                w == old_ws@, nn == new_ws@, w.len() >= 1, nn.len() >= 1, t == old(txn).st().tasks, txn.st().tasks == t, txn.stored() == old(txn).stored(), w == old(txn).st().ws,
                     phase12_post(in_working_set, renumber, w, t, nn), ws_wf2(w),
                 i == it_old.index(),
                 it_old.seq().len() == (if w.len() <= nn.len() { w.len() } else { nn.len() }),
@@ -285,7 +285,7 @@ where
                 let mut i: usize = 0;
                 for item in it_item: old_ws.iter()
                     invariant
-                        w == old_ws@, nn == new_ws@, nn.len() < w.len(), nn.len() >= 1, t == s0.tasks, s0 == old(txn).st(), !txn.st().committed, w == s0.ws,
+                        w == old_ws@, nn == new_ws@, nn.len() < w.len(), nn.len() >= 1, t == s0.tasks, s0 == old(txn).st(), txn.stored() == old(txn).stored(), w == s0.ws,
                         txn.inv(), txn.st() == (TxnView { ws: txn.st().ws, ..s0 }),
                         phase12_post(in_working_set, renumber, w, t, nn), ws_wf2(w),
                         i == it_item.index(), it_item.seq().len() == w.len(),
@@ -321,7 +321,7 @@ where
             proof { reveal(phase12_post); assert(nn.take(mm) + w.skip(mm) =~= nn.take(w.len() as int)); }
             for uuid in it_uuid2: &new_ws[old_ws.len()..]
                 invariant
-                    w == old_ws@, nn == new_ws@, nn.len() > w.len(), w.len() >= 1, t == s0.tasks, s0 == old(txn).st(), !txn.st().committed, w == s0.ws,
+                    w == old_ws@, nn == new_ws@, nn.len() > w.len(), w.len() >= 1, t == s0.tasks, s0 == old(txn).st(), txn.stored() == old(txn).stored(), w == s0.ws,
                     txn.inv(), txn.st() == (TxnView { ws: txn.st().ws, ..s0 }),
                     phase12_post(in_working_set, renumber, w, t, nn), ws_wf2(w),
                     it_uuid2.seq().len() == nn.len() - w.len(),
